@@ -54,6 +54,7 @@ impl RequestFilter for DefaultFilter {
 }
 
 #[derive(Debug)]
+#[cfg_attr(mainline_verif, derive(Clone))]
 /// A server that handles incoming requests.
 ///
 /// Supports [BEP_005](https://www.bittorrent.org/beps/bep_0005.html) and [BEP_0044](https://www.bittorrent.org/beps/bep_0044.html).
